@@ -242,6 +242,10 @@ pub enum Zone {
     Unasserted,
 }
 /// Zone of point `p` relative to a Manhattan path of width `w` (see DESIGN C13).
+/// Inside: within w/2 of a segment measured across it (projection on the segment), or within w/2
+/// of an interior joint. Outside: farther than w/2 (Euclidean) from every segment and not in the
+/// w-square around an interior joint (the filled outer corner of a bend is left unasserted, as
+/// are the cap zones at the two ends within Euclidean w/2 -- flush and round ends differ there).
 pub fn path_zone(pts: &[P], w: i64, p: P) -> Zone {
     let n = pts.len();
     let mut all_far = true;
@@ -258,16 +262,21 @@ pub fn path_zone(pts: &[P], w: i64, p: P) -> Zone {
         if a.1 == b.1 && dx == 0 && 2 * dy <= w {
             return Zone::MustBeInside;
         }
-        if 2 * dx.max(dy) <= w {
+        // Euclidean distance to the (axis-parallel) segment is hypot(dx, dy)
+        let (dx, dy) = (dx as i128, dy as i128);
+        if 4 * (dx * dx + dy * dy) <= (w as i128) * (w as i128) {
             all_far = false;
         }
     }
-    // within Euclidean distance w/2 of an interior joint
+    // within Euclidean distance w/2 of an interior joint: inside; within the w-square around it: unasserted
     for k in 1..n.saturating_sub(1) {
         let j = pts[k];
         let (dx, dy) = ((p.0 - j.0) as i128, (p.1 - j.1) as i128);
         if 4 * (dx * dx + dy * dy) <= (w as i128) * (w as i128) {
             return Zone::MustBeInside;
+        }
+        if 2 * dx.abs().max(dy.abs()) <= w as i128 {
+            all_far = false;
         }
     }
     if all_far {
